@@ -6,7 +6,7 @@ from .. import history
 from ..battery import call, _Raised
 from ..observe import observe
 
-N_RANDOM = {"quick": 1000, "thorough": 20000}
+N_RANDOM = {"quick": 1000, "thorough": 100000}
 N_EXH = 2 ** 12 - 1  # every non-empty directed hypergraph on 3 fixed nodes (12 possible hyperedges), thorough tier only
 TIERS = {"quick": N_RANDOM["quick"], "thorough": N_RANDOM["thorough"] + N_EXH}
 EXHAUSTIVE = {"quick": False, "thorough": True}
